@@ -254,7 +254,7 @@ CLAIMS = {
              "Recommendation as a recogniser, = all Chars, no '--', no '-' at the end; by induction over the fuel-driven many0 loop), a PI target (a Name that is not xml in "
              "any letter case) and PI data (all Chars, no '?>'); effect and frame of a successful data edit (the node holds the "
              "validated outcome, no other node of the document or of a detached tree changes identity, kind or data); the depth clause "
-             "(depth_bounded_after_any_history, parsed_document_stays_within_depth: after ANY history of the 25 operations no tree nests "
+             "(depth_bounded_after_any_history, parsed_and_edited_stays_within_depth: whatever text the translated parser accepts and after ANY history of the 25 operations no tree nests "
              "elements deeper than MAX_ELEMENT_DEPTH, the depth the parser reads back - by an invariant of the transition relation, "
              "Lemmas/DomHeight), "
              "every data edit that succeeds stored data that passed the predicate for the node's kind evaluated "
